@@ -97,7 +97,7 @@ mod verif_replay_sendio {
     }
 
     /// parent/child pair: the child sends `child.msg` with the given <send> attributes; the parent ends in "delivered"
-    /// when it receives it, in "lost" after 2 s, the child itself reports `child.echo` when it gets its own event
+    /// when it receives it, in "lost" after 5 s, the child itself reports `child.echo` when it gets its own event
     fn routed_doc(child_send_attrs: &str) -> String {
         format!(
             r###"<scxml xmlns="http://www.w3.org/2005/07/scxml" initial="s0" version="1.0" datamodel="rfsm-expression">
